@@ -173,3 +173,129 @@ class ZlibModel:
 
     def __getattr__(self, name):
         return getattr(_real_zlib, name)
+
+
+# -- finite maps of unknown size over the reals -------------------------------------------------
+
+
+class SymMapping:
+    """A finite map Real -> Real of UNKNOWN size: domain predicate dom(k), value function
+    val(k).  What code can observe of it (truthiness, membership, lookup, min/max of the keys,
+    max/min of the keys below/above a value) is answered from the defining properties.
+
+    Universally quantified facts about the keys ("no key lies strictly between a and b",
+    "r is the greatest key below v") are kept as functions and INSTANTIATED on every point
+    of interest (ghost inputs, looked-up values, results of min/max) - ground consequences
+    of true facts only, so the encoding stays quantifier-free and sound."""
+
+    def __init__(self, name="M"):
+        R, B = z3.RealSort(), z3.BoolSort()
+        self.dom = z3.Function(name + ".dom", R, B)
+        self.val = z3.Function(name + ".val", R, R)
+        self.nonempty = z3.Bool(name + ".nonempty")
+        self.name = name
+        self.points = []
+        self.facts = []
+
+    # -- instantiation -----------------------------------------------------------
+    def add_point(self, x):
+        t = sym._lift(x).real()
+        if any(z3.eq(t, p) for p in self.points):
+            return
+        self.points.append(t)
+        c = ctx()
+        for f in self.facts:
+            c.assume_term(f(t))
+
+    def add_fact(self, f):
+        """f: z3 real term k -> z3 Bool, true for EVERY real k"""
+        self.facts.append(f)
+        c = ctx()
+        for p in self.points:
+            c.assume_term(f(p))
+
+    def keys(self):
+        return SymKeys(self)
+
+    def __getitem__(self, k):
+        k = sym._lift(k)
+        self.add_point(k)
+        if not bool(SymBool(self.dom(k.real()))):
+            raise KeyError(k)
+        return SymNum(self.val(k.real()))
+
+    def __contains__(self, k):
+        k = sym._lift(k)
+        self.add_point(k)
+        return bool(SymBool(self.dom(k.real())))
+
+    def __bool__(self):
+        return bool(SymKeys(self))
+
+    def __deepcopy__(self, memo):
+        return self
+
+
+class SymKeys:
+    def __init__(self, m):
+        self.m = m
+
+    def __bool__(self):
+        c = ctx()
+        m = self.m
+        if bool(SymBool(m.nonempty)):
+            w = c.fresh_real("key")
+            c.assume_term(m.dom(w.t))
+            m.add_point(w)
+            return True
+        m.add_fact(lambda k: z3.Not(m.dom(k)))
+        return False
+
+    def __contains__(self, v):
+        return v in self.m
+
+    def _extreme(self, want_max, cond=None):
+        """max (or min) of {k in keys : cond(k)}; ValueError if that set is empty."""
+        c = ctx()
+        m = self.m
+
+        def ck(k):
+            return z3.BoolVal(True) if cond is None else sym.lift_bool(cond(SymNum(k))).t
+
+        some = c.fresh_bool("some")
+        if not bool(some):
+            m.add_fact(lambda k: z3.Not(z3.And(m.dom(k), ck(k))))
+            c.assume(True)
+            if c._check() == z3.unsat:
+                raise sym.PathInfeasible()
+            raise ValueError("%s() arg is an empty sequence" % ("max" if want_max else "min"))
+        r = c.fresh_real("ext")
+        c.assume_term(z3.And(m.dom(r.t), ck(r.t)))
+        m.add_fact(lambda k: z3.Implies(z3.And(m.dom(k), ck(k)), (k <= r.t) if want_max else (k >= r.t)))
+        m.add_point(r)
+        if c._check() == z3.unsat:
+            raise sym.PathInfeasible()
+        return r
+
+    def __reduce_gen__(self, fname, elt, cond):
+        probe = SymNum(z3.Real("k!probe"))
+        e = elt(probe)
+        if not (isinstance(e, SymNum) and z3.eq(e.t, probe.t)):
+            raise Unsupported("reduction over map keys with a non-identity element")
+        if fname == "max":
+            return self._extreme(True, cond)
+        if fname == "min":
+            return self._extreme(False, cond)
+        raise Unsupported("reduction %s over map keys" % fname)
+
+
+def min_(*a, **k):
+    if len(a) == 1 and isinstance(a[0], SymKeys) and not k:
+        return a[0]._extreme(False)
+    return min(*a, **k)
+
+
+def max_(*a, **k):
+    if len(a) == 1 and isinstance(a[0], SymKeys) and not k:
+        return a[0]._extreme(True)
+    return max(*a, **k)
